@@ -424,6 +424,9 @@ func cdGuardCount(pd packetDecoder, compact bool) error {
 		if len(rest) < 4 {
 			return nil
 		}
+		if int32(binary.BigEndian.Uint32(rest)) < 0 {
+			return nil // null / negative counts are the decoder's own business
+		}
 		n = uint64(binary.BigEndian.Uint32(rest))
 	}
 	if n > uint64(len(rest))+1 {
